@@ -343,8 +343,12 @@ class SelectorWorld:
         if obj is None:
             return
         try:
-            self.objs[name] = pickle.loads(pickle.dumps(obj))
-            self.stats["fired"]["restart:pickle"] += 1
+            if op.get("mode") == "deepcopy":
+                self.objs[name] = copy.deepcopy(obj)
+                self.stats["fired"]["restart:deepcopy"] += 1
+            else:
+                self.objs[name] = pickle.loads(pickle.dumps(obj))
+                self.stats["fired"]["restart:pickle"] += 1
             self.log.add("RESTART", name, "ok")
         except Exception as e:  # noqa: BLE001
             self.log.add("RESTART", name, "raise", type(e).__name__)
@@ -373,7 +377,11 @@ class SelectorWorld:
             try:
                 have = int(obj.n_selected_)
                 want = resolve_n_to_select(m["resolved"].get("n_to_select"), X.shape[info["axis"]])
-                same = m["data"] is None or m["data"] == (op["X"], op.get("y"))
+                same = m["data"] is None or m["data"] == (op["X"], op.get("y")) or (
+                    self.heap.entries[m["data"][0]]["snap"] == self.heap.entries[op["X"]]["snap"]
+                    and (m["data"][1] is None) == (op.get("y") is None)
+                    and (m["data"][1] is None or self.heap.entries[m["data"][1]]["snap"] == self.heap.entries[op["y"]]["snap"])
+                )
             except Exception:  # noqa: BLE001
                 have, want, same = 0, 1, True
             if want <= have or not same:
